@@ -12,7 +12,7 @@
 (* checks are printed as VXBAD lines and counted.                          *)
 (* One file holds many executions, separated by {"e":"reset"} lines.       *)
 (***************************************************************************)
-EXTENDS OVMKernelDefs, Json, IOUtils
+EXTENDS OVMQueries, Json, IOUtils
 
 CONSTANTS Props     \* the property ids whose oracles are evaluated, e.g. {"C01","C02"}
 
@@ -96,7 +96,9 @@ LineCheck(i, tainted) ==
       g    == IF IsSwap(c) THEN SwapMap(pre, c)
               ELSE IF Renumbers(pre, c) THEN (IF relM THEN gM ELSE gH)
               ELSE GrowMap(pre, post)
-      drift == IF kern /\ Strip(m) # Strip(post) THEN 1 ELSE 0
+      drift == IF kern /\ Strip(m) # Strip(post)
+               THEN (IF PrintT(<<"VXDIFF", i, c.op, {fld \in DOMAIN Strip(m) : Strip(m)[fld] # Strip(post)[fld]}>>) THEN 1 ELSE 1)
+               ELSE 0
       inC  == Manifoldish(post) /\ Manifoldish(pre)
       msg ==
         IF ~WellFormed(post) THEN "WellFormed"
@@ -115,6 +117,7 @@ LineCheck(i, tainted) ==
         ELSE IF Want("C12") /\ Has(ln, "tw") /\ ln.tret # ln.ret THEN "C12:TwinRet"
         ELSE IF Want("C17") /\ kern /\ IsSwap(c) /\ Tr[ln.pl].e = "call" /\ Tr[ln.pl].c = c
                 /\ CoreOfJson(Tr[Tr[ln.pl].pl].post) # CoreOfJson(qp) THEN "C17:SwapTwiceRestores"
+        ELSE IF Has(ln, "q") /\ inC THEN QCheck(post, ln.q, Props)
         ELSE ""
   IN [msg |-> msg, drift |-> drift]
 
